@@ -417,6 +417,46 @@ def gen_typed(rng):
     n = rng.choice([1, 2, 3, 5, 8, 13, 21, 34])
     return typed_case(rng, [typed_item(rng) for _ in range(n)], cross=rng.choice([0, 0, 0.15]))
 
+def gen_reopen(rng, maxbuf):
+    """File_Open branch by branch (extension round: its body is extracted as a program): the File holds a stream or not ×
+    fopen succeeds or fails (missing directory, mode x, a missing file opened for reading) × the fclose of the held stream
+    fails (/dev/full with buffered bytes: IOError, fopen is never reached).  The held stream has UNFLUSHED bytes most of the
+    time and the reopen goes to the SAME path in a truncating mode half of the time: what the old stream still held must be
+    in the file before the truncation, not after it.  After a failed reopen the File must be closed (tell refused) and the
+    bytes of the old stream on disk (dump)."""
+    lines = []
+    o = rng.randrange(8); k = rng.randrange(NFILE)
+    if o >= 4: lines.append(f'new {o}' if rng.random() < 0.6 else f'new {o} {k} {rng.choice(["w", "w+", "a"])}')
+    for _ in range(rng.randrange(2, 7)):
+        r = rng.random()
+        n1 = rng.choice([1, 2, 7, 10, 100, BUF - 1, BUF, BUF + 1, 5000, 20000]) if rng.random() < 0.8 else interesting_len(rng, maxbuf)
+        n2 = rng.choice([0, 1, 2, 3, 100]) if rng.random() < 0.8 else rng.randrange(0, max(1, n1))
+        if r < 0.45:
+            # held → reopen (same path, truncating | same path, other mode | another path)
+            lines += [f'open {o} {k} {rng.choice(MODES_W + MODES_WP)}', f'write {o} {n1} {rng.randrange(1 << 30)}']
+            if rng.random() < 0.15: lines.append(f'flush {o}')
+            q = rng.random()
+            k2 = k if q < 0.6 else rng.choice([x for x in range(NFILE) if x != k])
+            lines.append(f'open {o} {k2} {rng.choice(MODES_W + MODES_WP) if q < 0.5 else rng.choice(MODES_A + MODES_RP + MODES_R)}')
+            lines += [f'tell {o}', f'write {o} {n2} {rng.randrange(1 << 30)}', f'tell {o}', f'close {o}', f'dump {k}']
+            if k2 != k: lines.append(f'dump {k2}')
+        elif r < 0.70:
+            # held → the new fopen fails: the old stream was closed (its bytes are in the file), the File is closed
+            lines += [f'open {o} {k} {rng.choice(MODES_W + MODES_WP + MODES_A)}', f'write {o} {n1} {rng.randrange(1 << 30)}']
+            lines.append(rng.choice([f'open {o} 90 w', f'open {o} {k} x', f'open {o} {rng.choice([x for x in range(NFILE) if x != k])} x']))
+            lines += [f'tell {o}', f'write {o} 1 1', f'eof {o}', f'close {o}', f'dump {k}']
+        elif r < 0.82:
+            # free → fopen fails / succeeds
+            lines += [f'close {o}', rng.choice([f'open {o} 90 w', f'open {o} {k} x', f'open {o} {k} r']), f'tell {o}', f'open {o} {k} w', f'tell {o}', f'close {o}']
+        elif r < 0.92:
+            # held on /dev/full with buffered bytes: the fclose inside File_Open fails → IOError, no fopen; the File is closed
+            lines += [f'open {o} 91 {rng.choice(["w", "a", "wb"])}', f'write {o} {rng.choice([1, 3, 100, 1024])} 5', f'open {o} {k} w', f'tell {o}',
+                      f'open {o} {k} w', f'write {o} 2 2', f'close {o}', f'dump {k}']
+        else:
+            lines += [f'open {o} {k} w', f'write {o} {n1} 3', f'rm {k}' if rng.random() < 0.3 else f'flush {o}', f'open {o} {k} r+', f'read {o} {min(n1, 300)}', f'eof {o}', f'close {o}']
+    if o >= 4: lines.append(f'del {o}')
+    return lines
+
 def gen_device(rng):
     lines = []
     o = rng.randrange(8)
@@ -672,7 +712,19 @@ class C20(Spec):
                   'of 2^31..2^32-1), C20_text_int_roundtrip_on_file (the same call on a File over the reference stdio: value, returned position, vfscanf calls on '
                   'the held handle, stream moved), C20_text_char_roundtrip, C20_scan_float_arm (double exactly with l), C20_text_source_shape (the other branches, '
                   'the arguments print_to_with hands to format_to, the formats of Int/Float Show and Look), C20_scan_sign_extending_arm_refuted (the variant '
-                  '`tmp = t;`: 4000000000 is read back as -294967296).')
+                  '`tmp = t;`: 4000000000 is read back as -294967296). '
+                  'Extension round — source text as programs: File_Open and File_Del are extracted statement by statement (CelloGen.File.openProg / delProg) and '
+                  'executed by runOpen (Cello/FileProg.lean): C20_open_source_is_model (for every stdio, configuration, state, path and mode the source\'s statements '
+                  'ARE fileOpen / fileDel), C20_open_closes_then_opens (fclose of the held handle precedes fopen; whatever fopen answers the old handle is gone; NULL: '
+                  'the File is closed and IOError raised), C20_open_on_closed, C20_open_source_close_once, C20_open_first_refuted / C20_open_first_keeps_old_on_failure '
+                  '(the order "fopen first, close afterwards": a second stream while the first is held, log not bracketed; a failed open leaves the File open). '
+                  'The header of with_in is extracted as terms over X and S (withProg) and executed by runWith over an abstract world: C20_with_program_cfg, '
+                  'C20_with_program_protocol (for every world and body that reaches its end: S evaluated exactly once, start_in on its value, the body once, stop_in on the '
+                  'loop variable = that object), C20_with_program_reeval_refuted (`stop_in(S)`: evaluated twice, the bound object never stopped). '
+                  'The floating branch of scan_from_with is extracted as a chain of arms like the integer branch (floatArms): C20_scan_float_arms_select (each of '
+                  '%[l]{f F e E g G} reaches an arm whose object has the type libc stores: double exactly with l), C20_scan_float_arms_all_reached, C20_text_float_conversion '
+                  '(what is delivered is libc\'s conversion at the width the specification names, never an undefined store), C20_scan_float_single_double_arm_refuted '
+                  '(the two arms merged into one double: %f is undefined).')
     level_note = ('Trusted: Lean kernel; libc stdio is modelled by a reference implementation validated against glibc on every run (not verified); '
                   'libc\'s conversions themselves (printf of an integer / floating value, the number conversions of scanf) are the executable models of Cello/Text.lean '
                   '(engine C15), validated here on every run by libc\'s own fprintf / fscanf on the twin file; the format scanner is C14; the regex translator for File.c '
@@ -698,11 +750,14 @@ class C20(Spec):
             '0xdeadbeef, 4000000000 …), %c over the byte values, the floating conversions f F e E g G with and without l over 25 doubles (float-exact and not), '
             '%s words, %$ on Int / Float / String (with every escape), separators " " "\\n" "\\t" "," ", " ";" "\\r\\n" " : " "|" or none, read back with the same '
             'format on the same stream after sseek(0) or after close / reopen, plus random mixtures (some read with another conversion than they were written with) '
-            'and one read beyond the last item; corpus/file_typed_*.ops hold a fixed selection that runs first. '
+            'and one read beyond the last item; corpus/file_typed_*.ops hold a fixed selection that runs first; '
+            '(l) File_Open branch by branch (family reopen): File holding a stream with unflushed bytes or not × fopen succeeds / fails (missing directory, mode x, missing file for r) × '
+            'the fclose inside File_Open fails (/dev/full), reopen onto the same path in a truncating mode, then tell / write / dump (branch counters open_* in the statistics; '
+            'the driver additionally executes the extracted statements of File_Open on every sopen and reports R opensrc). '
             'The two known-finding regions (early exit with the File open; copy / assign of an open File) are '
             'exercised by corpus/kf_c20_*.ops only. non-trivial item = an op whose observation shows a stdio call or a '
             'refusal on a closed File; distinct = distinct (op text, observation).')
-    trusted_base = ('translate/g_file.py (regex over src/File.c, src/Start.c, the three clauses of with_in)',
+    trusted_base = ('translate/g_file.py (regex over src/File.c, src/Start.c; statement tokeniser for File_Open / File_Del, term parser for the clauses of with_in, chain reader for the arms of scan_from_with)',
                     'harness/h_file.c + lean/Driver/File.lean (correspondence is testing)',
                     'glibc stdio is modelled by Cello.File.refIO (validated each run against libc on a twin file), not verified',
                     'libc\'s printf / scanf conversions: the executable models of Cello/Text.lean (C15), validated each run against libc\'s own fprintf / fscanf on the twin file; C\'s integer conversion rules as modelled in Cello/FileText.lean (conv, promote, uac)',
@@ -742,6 +797,7 @@ class C20(Spec):
         # seek / reopen), then random mixtures
         for rep in range(1 if quick else 4): pack(f'typedsweep{rep}_', gen_typed_sweep(rng), 1)
         pack('typed', [gen_typed(rng) for _ in range((80 if quick else 700) * boost)], 1)
+        pack('reopen', [gen_reopen(rng, maxbuf) for _ in range((80 if quick else 600) * boost)], 1)
         n_rt = (150 if quick else 1200) * boost
         pack('rt', [gen_roundtrip(rng, maxbuf) for _ in range(n_rt)], 1)
         ex = gen_lifecycle_exhaustive(3 if quick else 4)
@@ -769,6 +825,11 @@ class C20(Spec):
             if l.startswith('R gbracketed=') and 'gbracketed=true' not in l:
                 return ('the model\'s own log of the whole process is rejected by the automaton over handles (gtrack = none) on this '
                         'history: a handle was used after its fclose or closed twice')
+            if l.startswith('R opensrc=') and 'opensrc=true' not in l:
+                return ('File_Open as the translator extracted it from the source (CelloGen.File.openProg, executed by runOpen) does not do '
+                        'what the model\'s fileOpen does on a sopen of this history: the order of fclose / fopen / the NULL test changed')
+            if l.startswith('R opensrc=') and 'withsrc=true' not in l:
+                return 'the header of with_in as terms (CelloGen.File.withProg) is not the clause model the driver runs'
             if l.startswith('R withproto=') and 'true' not in l:
                 return ('the model\'s own with loops break the protocol (wtrack = none) on this history: a source expression was evaluated '
                         'again by the step clause, or stop_in received an object that is not the loop variable')
@@ -797,6 +858,12 @@ class C20(Spec):
             m = re.search(r'st=h\d+:(\d+):', o)
             if m: acc['max_pos'] = max(acc.get('max_pos', 0), int(m.group(1)))
             if op == 'drop' and 'fclose:' in o: acc['collector_closed'] = acc.get('collector_closed', 0) + 1
+            if op == 'open' and ' calls=' in o:
+                # branch counters of File_Open: held / free × what fclose and fopen answered
+                calls = o.split(' calls=')[1].split()[0]
+                held = 'fclose:' in calls
+                br = ('held' if held else 'free') + ('-closefailed' if held and 'fopen' not in calls else '-ok' if 'exc=none' in o else '-fopenfailed')
+                acc['open_' + br] = acc.get('open_' + br, 0) + 1
             if op in ('pclose', 'pstop', 'pdel', 'pwith-exit', 'popen') and 'exc=IOError' in o and 'pclose:p' in o:
                 acc['pclose_nonzero_status'] = acc.get('pclose_nonzero_status', 0) + 1
             if op == 'end':
